@@ -55,7 +55,13 @@ def standins(tier, seed):
     reg = [{'name': f'registered-sums#{i}', 'bound': f'{len(forms)} sum / difference / involution / grade forms inside alg.register(f), seeded operands, numeric recorder path',
             'job': {'kind': 'register', 'module': 'standins.jobs3', 'configs': [dict(c, always=forms, random=0, modes=['numeric'])], 'seed': seed * 10 + i}}
            for i, c in enumerate([dict(p=3), dict(p=2, q=0, r=1)])]
-    return K.symcoef_jobs('C04', ['add', 'sub', 'neg', 'reverse', 'involute', 'conjugate'], tier, seed, extra_configs=K.CUSTOM) + _gradesel_jobs(tier, seed) + reg
+    # operands that are rebuilt and dropped every round, alternating between patterns of equal length (seeded change C04k: a lookup keyed
+    # by the address of a keys tuple returns another pattern's function once the address is recycled)
+    fresh = [{'name': 'fresh-operand-rounds', 'bound': '6 rounds over a pool of single-grade parts and literal patterns of equal length, operands rebuilt and released every call; neg / reverse / involute / conjugate, both call forms',
+              'job': {'kind': 'fresh_rounds', 'module': 'standins.jobs7', 'ops': ['neg', 'reverse', 'involute', 'conjugate'],
+                      'configs': [dict(p=3), dict(p=2, q=0, r=1), dict(p=2, q=1, r=1)] if tier == 'quick' else [dict(p=3), dict(p=2, q=0, r=1), dict(p=2, q=1, r=1), dict(p=4), dict(name='3DPGA'), dict(p=2), dict(p=3, q=1, rounds=10)],
+                      'seed': seed}}]
+    return fresh + K.symcoef_jobs('C04', ['add', 'sub', 'neg', 'reverse', 'involute', 'conjugate'], tier, seed, extra_configs=K.CUSTOM) + _gradesel_jobs(tier, seed) + reg
 
 
 replay = K.replay_any
